@@ -151,10 +151,16 @@ def charged_args(draw):
     md = draw(st.sampled_from(QUARKS_D)) * draw(st.floats(0.8, 1.2))
     mode = draw(st.sampled_from(["generic", "generic", "threshold+", "threshold-", "equalW", "nearW"]))
     mHp = draw(logu(50.0, 5000.0))
-    if mode == "threshold+" and 50 <= mu + md <= 5000:
-        mHp = draw(near(mu + md, -12.0, -2.0))
-    elif mode == "threshold-" and 50 <= mu - md <= 5000:
-        mHp = draw(near(mu - md, -12.0, -2.0))
+    if mode in ("threshold+", "threshold-") and 50 <= (mu + md if mode[-1] == "+" else mu - md) <= 5000:
+        m0 = mu + md if mode[-1] == "+" else mu - md
+        how = draw(st.sampled_from(["exact", "ulps", "near", "near"]))
+        if how == "exact":
+            mHp = m0          # inside the window in which the library switches to the analytic limit of Phi/lambda^2
+        elif how == "ulps":
+            mHp = m0 * (1.0 + draw(sign()) * 10.0 ** draw(st.floats(-17.0, -13.0)))
+        else:
+            mHp = draw(near(m0, -12.0, -2.0))
+        mode = mode + ":" + how
     mw = MW * draw(st.floats(0.98, 1.02))
     if mode == "equalW":
         mHp = mw
@@ -326,6 +332,15 @@ def nontrivial(case):
     return case["mode"] not in ("generic", "apart")
 
 
+def kallen_window(args):
+    """the library's own test for 'at the Kaellen zero' (phi_over_y in gm2_ffunctions.cpp), evaluated the same way"""
+    xu, xd = args[0], args[1]
+    if xd <= 0:
+        return math.inf
+    s = math.sqrt(xd)
+    return min(abs((xu - 1) / xd + 2 / s - 1), abs((xu - 1) / xd - 2 / s - 1))
+
+
 def kallen_rel(args):
     """|lambda^2(xu, xd, 1)| relative to the squared largest argument, for the charged-Higgs functions"""
     xu, xd = args[0], args[1]
@@ -349,11 +364,12 @@ def known_match(entry, case, fail):
                 return True
         return False
     if case.get("f") in m.get("functions", []) and "lambda2_rel_max" in m:
+        # next to the Kaellen zero, but OUTSIDE the window |xu - (1 -+ sqrt(xd))^2| < 1e-8 xd in which the library
+        # returns the analytic limit (accurate to 1e-10 there; measured): a wrong value inside the window is not
+        # this finding
         a = case["args"]
-        rels = [kallen_rel(a)]
-        if len(a) == 6:
-            rels.append(kallen_rel([a[2], a[3]]))
-        return min(rels) <= m["lambda2_rel_max"]
+        pairs = [a[:2]] + ([a[2:4]] if len(a) == 6 else [])
+        return any(kallen_rel(q) <= m["lambda2_rel_max"] and kallen_window(q) >= 0.5e-8 for q in pairs)
     return False
 
 
